@@ -2154,6 +2154,12 @@ func (e *Engine) LemmaGoal(lm *Lemma) (g *Goal, err error) {
 // globalNeverWritten returns "" when no instruction of the package uses the
 // global other than as the address operand of a load.
 func globalNeverWritten(pkg *ssa.Package, g *ssa.Global) string {
+	return globalWrittenOnlyIn(pkg, g, nil)
+}
+
+// globalWrittenOnlyIn: "" iff no instruction of the package outside `only` stores
+// to g or takes its address for anything but a load.
+func globalWrittenOnlyIn(pkg *ssa.Package, g *ssa.Global, only *ssa.Function) string {
 	var fns []*ssa.Function
 	var add func(f *ssa.Function)
 	add = func(f *ssa.Function) {
@@ -2178,6 +2184,9 @@ func globalNeverWritten(pkg *ssa.Package, g *ssa.Global) string {
 		}
 	}
 	for _, f := range fns {
+		if only != nil && f == only {
+			continue
+		}
 		for _, b := range f.Blocks {
 			for _, ins := range b.Instrs {
 				for _, op := range ins.Operands(nil) {
